@@ -1350,4 +1350,7 @@ def run(chk):
         if not ok:
             chk.violation(r_ijk, "inverse:" + q, "%s splits a global index g into (i, j, k) = (%s, %s, %s); under the natural ordering it is (g mod nx, (g div nx) mod ny, g div (nx ny))%s: the cell it names is not the one the index belongs to" % (q, sy.show_term(got[0]), sy.show_term(got[1]), sy.show_term(got[2]), ", one-based" if base1 else ""), f["file"], f["l"])
 
+    from verif import fallthrough
+    fallthrough.run(chk, "C13", floor=3)
+
     chk.assumptions += ["closure of the parallel loop is followed to depth 3 within EclipseGrid.cpp, GridDims.cpp and calculateCellVol.cpp; std:: callees are trusted to be re-entrant"]
